@@ -45,11 +45,12 @@ def firstFilter : List Q → Option (Nat × Q × (Repo → Bool))
     | some p => some (0, c, p)
     | none => (firstFilter r).map fun x => (x.1 + 1, x.2)
 
-/-- the replacement of a filter child once every selected repository satisfies it; `none` = leave the query -/
+/-- the replacement of a filter child once every selected repository satisfies it; `none` = leave the query
+    (more than one branch entry; or, since the `fix:` commit, an empty branch name) -/
 def replacement : Q → Option Q
   | .branchesRepos l =>
     match l with
-    | [br] => some (.branch br.1 true)
+    | [br] => if br.1.isEmpty then none else some (.branch br.1 true)
     | _ => none
   | _ => some (.const true)
 
